@@ -107,6 +107,18 @@ CLAIMED["C09"] = dict(
    note=TB + "Modelled, not verified: asyncio cancellation semantics (A1, A2: delivery at the parked await; request/deliver split models Task.cancel()); kill placement granularity is the harness event boundary (quiescent points), plus back-to-back requests.",
    design="DESIGN.md section 4, C09")
 
+CLAIMED["C10"] = dict(
+   technique="Lean 4 proof (life-cycle invariant of the connection machine preserved by every event, by induction over arbitrary event histories incl. faults) + differential execution with faults injected at every event boundary + implementation-level fault enumeration",
+   text="Theorems in lean/MimicProps/C10.lean: for EVERY history of handshake / commands (arbitrary scripts without life-cycle ops) / application resumes / "
+        "client block-unblock / kills and their delivery / client EOF / transport loss, with session.init suspending or raising and session.close raising: "
+        "when the connection has ended, session.close was called exactly (1 if init completed else 0) times, the connection is unregistered and the "
+        "transport closed; before the end close was never called; never twice; never without init. Tie: reference conversation (handshake, streamed query, "
+        "prepare, cursor, fetch, reset, quit) with one fault at every event boundary and sampled pairs, all login variants and callback failures, compared "
+        "event by event with Mimic.Conn; oracle-only enumerations: disconnect after every (3rd in quick) byte offset, failure of every transport.write; "
+        "oracle: close count, registry, transport, no surviving server task.",
+   note=TB + "Modelled, not verified: asyncio (A1-A4); session.close is awaited without suspension in the model; write failures are modelled as a lost transport noticed at the next drain/read.",
+   design="DESIGN.md section 4, C10")
+
 REASON_PENDING = "check not built yet (work in progress; see DESIGN.md section 9)"
 
 m = {
